@@ -59,5 +59,9 @@ Definition hs_case := (hs_consts * bool)%type.       (* observed: fired? *)
 Definition hs_dis (fixed : bool) (cs : list hs_case) : list nat :=
   idx_false (fun '(c, obs) => Bool.eqb ((if fixed then hs_check_fixed else hs_check_impl) c) obs) 0 cs.
 Definition fs_case := (Q * Q * bool)%type.
-Definition fs_dis (cs : list fs_case) : list nat :=
-  idx_false (fun '(a, b, obs) => Bool.eqb (from_sigmoid_check a b) obs) 0 cs.
+(* repaired HardSwishFusionFromHardSigmoid.check (proposed_fixes/C05_hardswish_from_hardsigmoid_exact_alpha.diff):
+   alpha is exactly the float32 nearest to 1/6 (= 11184811 * 2^-26, the alpha of the HardSwish kernel), beta exactly 1/2 *)
+Definition f32_sixth : Q := 11184811 # 67108864.
+Definition from_sigmoid_check_exact (alpha beta : Q) : bool := Qeq_bool alpha f32_sixth && Qeq_bool beta (1 # 2).
+Definition fs_dis (fixed : bool) (cs : list fs_case) : list nat :=
+  idx_false (fun '(a, b, obs) => Bool.eqb ((if fixed then from_sigmoid_check_exact else from_sigmoid_check) a b) obs) 0 cs.
